@@ -151,7 +151,14 @@ let () =
             | PClose id -> l := l_close_session ieq before (z_of_int id)
             | PCloseB id -> l := l_close_begin ieq before (z_of_int id)
             | PCloseE id -> l := l_close_end ieq before (z_of_int id)
-            | PLClose -> l := l_close before
+            | PLClose ->
+                (* Listener.Close: die, then the backlog drained, each queued session closed *)
+                let cur = ref (l_close before) in
+                while !cur.accepts <> [] do
+                  let id = snd (List.hd !cur.accepts) in
+                  cur := l_close_end ieq (l_backlog_close ieq !cur) id
+                done;
+                l := !cur
             | NoOp -> ());
            pend := NoOp;
            let ks = show_keys !l in
